@@ -9,7 +9,8 @@
   from `convert_path_str`: for decoded sliders `PathShapeOk` is exactly `F17Free`; Props/C04DecodedPathsIeee.lean: its laws are
   theorems of the IEEE instances); on the IEEE instances also Props/C04DecodedObjectsIeee.lean and
   Props/C04DecodedObjectsIeee2.lean; Props/C04DecodedTimingEvents.lean (`CollectedTimesInLimit` reduced to the objects' computed
-  end times / slider tails and span ends, all modes, IEEE doubles). All in namespace `Rosu.C04`.
+  end times / slider tails and span ends, all modes, IEEE doubles); Props/C04DecodedTimingUpper.lean (the same with the upper
+  bounds alone, under `C01.DistOk`). All in namespace `Rosu.C04`.
 -/
 import RosuModel.Props.C04Slider
 import RosuModel.Props.C04Timing
@@ -28,3 +29,4 @@ import RosuModel.Props.C04DecodedPaths
 import RosuModel.Props.C04DecodedPathsIeee
 import RosuModel.Props.C04DecodedObjectsIeee2
 import RosuModel.Props.C04DecodedTimingEvents
+import RosuModel.Props.C04DecodedTimingUpper
